@@ -197,12 +197,9 @@ Section Env.
 
   Definition bev_of (inc : bool) (f : h5file) (feat : Z) : list (Z * dset) :=
     if negb (fexists feat) then []
-    else match assoc feat (f_events f) with
-         | Some _ => []
-         | None => match inc, assoc feat (f_bevents f) with
-                   | true, Some d => [(feat, h5ds_copy true d)]
-                   | _, _ => []
-                   end
+    else match inc, assoc feat (f_bevents f) with
+         | true, Some d => [(feat, h5ds_copy true d)]
+         | _, _ => []
          end.
 
   Lemma feat_fold_spec inc f (fit : list Z) : forall ev bev,
@@ -213,13 +210,18 @@ Section Env.
     - now rewrite !app_nil_r.
     - unfold feat_step at 2, ev_of at 1, bev_of at 1.
       destruct (negb (fexists x)); [rewrite IH; reflexivity|].
+      assert (Hb : forall (l : list (Z * dset)) r, (bev ++ l) ++ r = bev ++ l ++ r)
+        by (intros; now rewrite app_assoc).
       destruct (assoc x (f_events f)) as [n|].
-      + destruct (defective x); [rewrite IH; reflexivity|].
-        rewrite IH. unfold finish.
-        destruct (copy_node n); rewrite <- app_assoc; reflexivity.
-      + destruct inc; [|rewrite IH; reflexivity].
-        destruct (assoc x (f_bevents f)); rewrite IH; [|reflexivity].
-        rewrite <- app_assoc. reflexivity.
+      + destruct (defective x).
+        * rewrite IH. destruct inc; [destruct (assoc x (f_bevents f))|];
+            rewrite <- ?app_assoc; reflexivity.
+        * rewrite IH. unfold finish.
+          destruct (copy_node n); destruct inc;
+            try destruct (assoc x (f_bevents f));
+            rewrite <- ?app_assoc; reflexivity.
+      + rewrite IH. destruct inc; [destruct (assoc x (f_bevents f))|];
+          rewrite <- ?app_assoc; reflexivity.
   Qed.
 
   Lemma ev_of_keys f y k v : In (k, v) (ev_of f y) -> k = y.
@@ -232,7 +234,6 @@ Section Env.
   Lemma bev_of_keys inc f y k v : In (k, v) (bev_of inc f y) -> k = y.
   Proof.
     unfold bev_of. destruct (negb (fexists y)); [intros []|].
-    destruct (assoc y (f_events f)); [intros []|].
     destruct inc; [|intros []]. destruct (assoc y (f_bevents f)); [|intros []].
     intros [[= <- _]|[]]. reflexivity.
   Qed.
@@ -254,21 +255,37 @@ Section Env.
 
   (* same shape and elements; the attributes of the source are kept in order,
      statistics may be appended *)
+  (* the dtype class is kept (numeric dtypes are numbered individually by
+     the harness); variable-length strings become fixed-length strings *)
+  Definition same_dtype (d d' : dset) : Prop :=
+    d_kind d' = d_kind d \/ (d_kind d = 1 /\ d_kind d' = 2).
+
   Definition node_same (n n' : node) : Prop :=
     match n, n' with
     | NDs d, NDs d' =>
         d_shape d' = d_shape d /\ d_data d' = d_data d
+        /\ same_dtype d d'
         /\ exists extra, d_attrs d' = d_attrs d ++ extra
     | NGrp ch, NGrp ch' =>
         map (fun kd => (fst kd, content (snd kd))) ch'
         = map (fun kd => (fst kd, content (snd kd))) ch
+        /\ Forall2 (fun kd kd' => same_dtype (snd kd) (snd kd')) ch ch'
     | _, _ => False
     end.
+
+  Lemma h5ds_copy_dtype e d : same_dtype d (h5ds_copy e d).
+  Proof.
+    unfold same_dtype, h5ds_copy.
+    destruct (e && negb (properly d) && negb (hd 0 (d_shape d) =? 0));
+      [|now left].
+    cbn [d_kind]. destruct (d_kind d =? 1) eqn:E; [right; split; [lia|reflexivity]|now left].
+  Qed.
 
   Lemma complete_attr_same k d :
     d_shape (complete_attr k d) = d_shape d /\ d_data (complete_attr k d) = d_data d
     /\ (exists extra, d_attrs (complete_attr k d) = d_attrs d ++ extra)
-    /\ d_zstd (complete_attr k d) = d_zstd d.
+    /\ d_zstd (complete_attr k d) = d_zstd d
+    /\ d_kind (complete_attr k d) = d_kind d.
   Proof.
     unfold complete_attr. destruct (assoc k (d_attrs d)); cbn.
     - repeat split; auto. exists []. now rewrite app_nil_r.
@@ -278,13 +295,14 @@ Section Env.
   Lemma complete_stats_same d :
     d_shape (complete_stats d) = d_shape d /\ d_data (complete_stats d) = d_data d
     /\ (exists extra, d_attrs (complete_stats d) = d_attrs d ++ extra)
-    /\ d_zstd (complete_stats d) = d_zstd d.
+    /\ d_zstd (complete_stats d) = d_zstd d
+    /\ d_kind (complete_stats d) = d_kind d.
   Proof.
     unfold complete_stats.
-    destruct (complete_attr_same A_MIN d) as [s1 [d1 [[e1 a1] z1]]].
-    destruct (complete_attr_same A_MAX (complete_attr A_MIN d)) as [s2 [d2 [[e2 a2] z2]]].
+    destruct (complete_attr_same A_MIN d) as [s1 [d1 [[e1 a1] [z1 k1]]]].
+    destruct (complete_attr_same A_MAX (complete_attr A_MIN d)) as [s2 [d2 [[e2 a2] [z2 k2]]]].
     destruct (complete_attr_same A_MEAN (complete_attr A_MAX (complete_attr A_MIN d)))
-      as [s3 [d3 [[e3 a3] z3]]].
+      as [s3 [d3 [[e3 a3] [z3 k3]]]].
     repeat split; try congruence.
     exists (e1 ++ e2 ++ e3). rewrite a3, a2, a1, <- !app_assoc. reflexivity.
   Qed.
@@ -294,13 +312,19 @@ Section Env.
     intros Hwf. unfold finish. destruct n as [d|ch]; cbn [copy_node].
     - cbn [node_wf] in Hwf. pose proof (h5ds_copy_content true d Hwf) as Hc.
       unfold content in Hc. injection Hc as Hs Hd Ha.
+      pose proof (h5ds_copy_dtype true d) as Hk.
       destruct (fscalar feat && negb (zprod (d_shape (h5ds_copy true d)) =? 0)).
-      + destruct (complete_stats_same (h5ds_copy true d)) as [s [dd [[e a] _]]].
-        cbn [node_same]. repeat split; try congruence. exists e. congruence.
+      + destruct (complete_stats_same (h5ds_copy true d)) as [s [dd [[e a] [_ k]]]].
+        cbn [node_same]. repeat split; try congruence.
+        * unfold same_dtype in *. rewrite k. exact Hk.
+        * exists e. congruence.
       + cbn [node_same]. repeat split; auto. exists []. now rewrite app_nil_r.
-    - cbn [node_same node_wf] in *. rewrite map_map. cbn [fst snd].
-      apply map_ext_in. intros [k d] Hin. cbn [fst snd]. f_equal.
-      apply h5ds_copy_content. rewrite Forall_forall in Hwf. apply (Hwf _ Hin).
+    - cbn [node_same node_wf] in *. split.
+      + rewrite map_map. cbn [fst snd].
+        apply map_ext_in. intros [k d] Hin. cbn [fst snd]. f_equal.
+        apply h5ds_copy_content. rewrite Forall_forall in Hwf. apply (Hwf _ Hin).
+      + clear Hwf. induction ch as [|[k d] ch IH]; cbn [map]; constructor; auto.
+        cbn [snd]. apply h5ds_copy_dtype.
   Qed.
 
   (* ---- features are preserved ------------------------------------------ *)
@@ -340,6 +364,70 @@ Section Env.
       split; [eapply assoc_In_keys; eauto|assumption].
   Qed.
 
+  (* any selection: what is selected, recognised and not marked defective is
+     in the output with the same content *)
+  Theorem copy_preserves_selected_feature sel ib il it f name n :
+    In name (feature_iter sel ib f) ->
+    assoc name (f_events f) = Some n ->
+    fexists name = true -> defective name = false -> node_wf n ->
+    exists n', assoc name (f_events (rtdc_copy sel ib il it f)) = Some n'
+               /\ node_same n n'.
+  Proof.
+    intros Hin Ha He Hd Hwf.
+    destruct (rtdc_copy_events sel ib il it f) as [Hev _]. rewrite Hev.
+    rewrite (assoc_flat_map (ev_of f)) by apply ev_of_keys.
+    apply memZ_In in Hin. rewrite Hin.
+    unfold ev_of. rewrite He, Ha, Hd. cbn [negb assoc]. rewrite Z.eqb_refl.
+    eexists; split; [reflexivity|]. now apply finish_same.
+  Qed.
+
+  Lemma feature_iter_basins_In sel f x :
+    In x (feature_iter sel true f) <->
+    In x (feature_iter0 fscalar sel (events_src true f))
+    \/ (In x (events_src true f) /\ fbmap x = true).
+  Proof.
+    unfold feature_iter. rewrite fold_add_In, filter_In. tauto.
+  Qed.
+
+  (* condense (features="scalar"): every stored scalar feature *)
+  Theorem copy_scalar_preserves_feature il it f name n :
+    assoc name (f_events f) = Some n -> fscalar name = true ->
+    fexists name = true -> defective name = false -> node_wf n ->
+    exists n', assoc name (f_events (rtdc_copy FScalar true il it f)) = Some n'
+               /\ node_same n n'.
+  Proof.
+    intros Ha Hs He Hd Hwf.
+    apply copy_preserves_selected_feature; auto.
+    apply feature_iter_basins_In. left. cbn [feature_iter0].
+    apply filter_In. split; [|assumption].
+    apply events_src_In. left. eapply assoc_In_keys; eauto.
+  Qed.
+
+  (* a list selection: every listed feature *)
+  Theorem copy_list_preserves_feature l il it f name n :
+    In name l -> assoc name (f_events f) = Some n ->
+    fexists name = true -> defective name = false -> node_wf n ->
+    exists n', assoc name (f_events (rtdc_copy (FList l) true il it f)) = Some n'
+               /\ node_same n n'.
+  Proof.
+    intros Hl Ha He Hd Hwf.
+    apply copy_preserves_selected_feature; auto.
+    apply feature_iter_basins_In. left. exact Hl.
+  Qed.
+
+  (* the basinmap features always accompany the basins *)
+  Theorem copy_keeps_basinmap sel il it f name n :
+    assoc name (f_events f) = Some n -> fbmap name = true ->
+    fexists name = true -> defective name = false -> node_wf n ->
+    exists n', assoc name (f_events (rtdc_copy sel true il it f)) = Some n'
+               /\ node_same n n'.
+  Proof.
+    intros Ha Hb He Hd Hwf.
+    apply copy_preserves_selected_feature; auto.
+    apply feature_iter_basins_In. right. split; [|assumption].
+    apply events_src_In. left. eapply assoc_In_keys; eauto.
+  Qed.
+
   (* nothing is invented: every feature of the output is the copy of a
      recognised, non-defective feature of the input (any selection) *)
   Theorem copy_invents_no_feature sel ib il it f name n' :
@@ -358,17 +446,17 @@ Section Env.
   (* internal basin data *)
   Theorem copy_preserves_basin_feature sel il it f name d :
     In name (feature_iter sel true f) ->
-    assoc name (f_bevents f) = Some d -> assoc name (f_events f) = None ->
+    assoc name (f_bevents f) = Some d ->
     fexists name = true -> wf_dset d ->
     exists d', assoc name (f_bevents (rtdc_copy sel true il it f)) = Some d'
-               /\ content d' = content d.
+               /\ content d' = content d /\ same_dtype d d'.
   Proof.
-    intros Hin Hb Hev He Hwf.
+    intros Hin Hb He Hwf.
     destruct (rtdc_copy_events sel true il it f) as [_ Hbv]. rewrite Hbv.
     rewrite (assoc_flat_map (bev_of true f)) by apply bev_of_keys.
-    apply memZ_In in Hin. rewrite Hin. unfold bev_of. rewrite He, Hev, Hb.
+    apply memZ_In in Hin. rewrite Hin. unfold bev_of. rewrite He, Hb.
     cbn [negb assoc]. rewrite Z.eqb_refl. eexists; split; [reflexivity|].
-    now apply h5ds_copy_content.
+    split; [now apply h5ds_copy_content|apply h5ds_copy_dtype].
   Qed.
 
   (* ---- metadata, logs, tables ------------------------------------------ *)
@@ -412,8 +500,7 @@ Section Env.
       clear Hb.
       induction (feature_iter sel false f) as [|x l IH]; [reflexivity|].
       cbn [flat_map]. rewrite IH, app_nil_r. unfold bev_of.
-      destruct (negb (fexists x)); [reflexivity|].
-      destruct (assoc x (f_events f)); reflexivity.
+      destruct (negb (fexists x)); reflexivity.
   Qed.
 
   (* ---- a second pass is a verbatim copy --------------------------------- *)
@@ -448,7 +535,7 @@ Section Env.
     unfold finish. destruct n as [d|ch]; cbn [copy_node].
     - destruct (fscalar feat && negb (zprod (d_shape (h5ds_copy true d)) =? 0)).
       + cbn [node_stable]. apply stable_iff.
-        destruct (complete_stats_same (h5ds_copy true d)) as [s [_ [_ z]]].
+        destruct (complete_stats_same (h5ds_copy true d)) as [s [_ [_ [z _]]]].
         unfold properly. rewrite z, s. apply h5ds_copy_result.
       + cbn [node_stable]. apply h5ds_copy_idempotent.
     - cbn [node_stable]. apply Forall_forall. intros [k d] Hin.
@@ -476,7 +563,6 @@ Section Env.
     - rewrite Hbv. apply Forall_forall. intros [k d] Hin.
       apply in_flat_map in Hin. destruct Hin as [y [_ H]]. unfold bev_of in H.
       destruct (negb (fexists y)); [destruct H|].
-      destruct (assoc y (f_events f)); [destruct H|].
       destruct ib; [|destruct H]. destruct (assoc y (f_bevents f)); [|destruct H].
       destruct H as [[= <- <-]|[]]. cbn [snd]. apply h5ds_copy_idempotent.
     - unfold C08.rtdc_copy. destruct (fold_left _ _ _). cbn [f_logs].
@@ -529,6 +615,8 @@ Section Env.
   Theorem compress_events warned f :
     f_events (compress fexists fscalar fbmap defective rekey warned f)
     = f_events (rtdc_copy FAll true true true f)
+    /\ f_bevents (compress fexists fscalar fbmap defective rekey warned f)
+       = f_bevents (rtdc_copy FAll true true true f)
     /\ f_tables (compress fexists fscalar fbmap defective rekey warned f)
        = f_tables (rtdc_copy FAll true true true f)
     /\ f_basins (compress fexists fscalar fbmap defective rekey warned f)
@@ -537,6 +625,53 @@ Section Env.
        = f_attrs f.
   Proof.
     unfold compress, with_logs. cbn. repeat split. apply copy_preserves_metadata.
+  Qed.
+
+  (* compress as a whole: features *)
+  Theorem compress_preserves_feature warned f name n :
+    assoc name (f_events f) = Some n ->
+    fexists name = true -> defective name = false -> node_wf n ->
+    exists n', assoc name (f_events (compress fexists fscalar fbmap defective
+                                              rekey warned f)) = Some n'
+               /\ node_same n n'.
+  Proof.
+    intros. destruct (compress_events warned f) as [-> _].
+    now apply copy_all_preserves_feature.
+  Qed.
+
+  Lemma assoc_filter_other {A} k old (l : list (Z * A)) :
+    k <> old ->
+    assoc k (filter (fun kd => negb (fst kd =? old)) l) = assoc k l.
+  Proof.
+    intros H1. induction l as [|[k' v] l IH]; simpl; [reflexivity|].
+    destruct (k' =? old) eqn:E; simpl.
+    - replace (k =? k') with false by lia. exact IH.
+    - destruct (k =? k'); [reflexivity|exact IH].
+  Qed.
+
+  (* the previous command log survives under its new name *)
+  Theorem compress_renames_old_log warned f d :
+    assoc L_CMD (f_logs f) = Some d -> assoc L_CMD_OLD (f_logs f) = None ->
+    assoc L_CMD_OLD (f_logs (compress fexists fscalar fbmap defective rekey
+                                      warned f))
+    = Some (h5ds_copy true d).
+  Proof.
+    intros Ha Hn. unfold compress, with_logs.
+    set (g := rtdc_copy FAll true true true f).
+    assert (Hg : f_logs g = map (fun kd => (fst kd, h5ds_copy true (snd kd)))
+                                (f_logs f)).
+    { unfold g, C08.rtdc_copy. destruct (fold_left _ _ _). reflexivity. }
+    assert (H1 : assoc L_CMD_OLD (rename_log L_CMD L_CMD_OLD false (f_logs g))
+                 = Some (h5ds_copy true d)).
+    { unfold rename_log. rewrite Hg, assoc_map_snd, Ha.
+      rewrite assoc_app, assoc_filter_other by (unfold L_CMD, L_CMD_OLD; lia).
+      rewrite assoc_map_snd, Hn. simpl. reflexivity. }
+    assert (H2 : assoc L_CMD_OLD
+                   (rename_log L_WARN L_WARN_OLD false
+                      (rename_log L_CMD L_CMD_OLD false (f_logs g)))
+                 = Some (h5ds_copy true d)).
+    { rewrite rename_log_other; [exact H1| |]; unfold L_CMD_OLD, L_WARN, L_WARN_OLD; lia. }
+    destruct warned; cbn [f_logs]; rewrite !assoc_app, H2; reflexivity.
   Qed.
 
   (* ---- condense --------------------------------------------------------- *)
